@@ -28,7 +28,7 @@ import re
 class SpecError(Exception):
     pass
 
-_FN_DIR = re.compile(r"^  (within|props|ret|attr|prologue|requires|ensures|decreases|loop|at|subst|kind|canary|stub)\b(.*)$")
+_FN_DIR = re.compile(r"^  (within|props|ret|attr|prologue|requires|ensures|decreases|loop|at|subst|kind|canary|stub|implheader)\b(.*)$")
 _LOOP_DIR = re.compile(r"^    (invariant|invariant_except_break|ensures|decreases|prologue)\b(.*)$")
 
 
@@ -103,6 +103,7 @@ def parse(path):
             elif key == "kind": cur["itemkind"] = val
             elif key == "canary": cur["canary"] = val
             elif key == "stub": cur["stub"] = val
+            elif key == "implheader": cur["implheader"] = val
             elif key == "attr": cur["attrs"].append(val)
             elif key in ("prologue", "decreases"):
                 buf = [val] if val else []
